@@ -494,25 +494,22 @@ func c19Cause(patterns []string, paths ...string) string {
 						set[`\p{Upper-name}`] = true
 					}
 				case n == 'x' || n >= '0' && n <= '7':
-					body := string(rs[2:])
-					if body != strings.ToLower(body) {
-						set["hex-escape-upper"] = true
-					}
+					set["code-point-escape"] = true
 				case n >= 'A' && n <= 'Z':
 					set[`\`+string(n)] = true
 				case n >= utf8.RuneSelf:
 					runeTag(n, "")
 				}
 			case rs[0] == '(' && len(rs) > 1:
-				if u != strings.ToLower(u) {
-					set["flag-or-group-name-upper"] = true
+				if strings.HasPrefix(u, "(?P<") {
+					if u != strings.ToLower(u) {
+						set["group-name-upper"] = true
+					}
 				} else {
-					fallback["flags"] = true
+					set["flags"+strings.TrimRight(u, ":)")+")"] = true
 				}
 			case rs[0] == '[' && len(rs) > 1:
-				if u != strings.ToLower(u) {
-					set["posix-class-upper"] = true
-				}
+				set["posix-class"+strings.Trim(u, "[]")] = true
 			case u == "[":
 				inClass = true
 			case u == "]":
